@@ -20,6 +20,7 @@ type c18Case struct {
 	Calls     []sb.Call         `json:"calls"`
 	Procs     int               `json:"procs"`
 	Yield     int               `json:"yield"`
+	Serial    bool              `json:"serial,omitempty"` // the serial schedule on the shared environment
 }
 
 func init() {
@@ -28,7 +29,7 @@ func init() {
 		Level:     "exploration",
 		Technique: "property-based testing (rapid) of concurrent workloads: differential against the same calls run alone, on a worker built with the Go race detector; schedules perturbed from user level (yielding visitor, callbacks, loader)",
 		Rule: "workloads of N in {2, 8, 64} goroutines x a mix of Execute, ExecuteSafe and Parse calls on ONE environment (core or Twig) over generated templates - in the Twig environment mixing content types (.html, .js, .css, .txt, no extension), templates with and without blocks, includes, inheritance, macros - each call with its own context and writer; GOMAXPROCS in {1, 4, 16}; an extra NodeVisitor, the recording callbacks and the loader yield the processor at points chosen by rapid. " +
-			"Oracles: (1) every call's (output, error) equals that of the same call run alone on a fresh environment; (2) the worker is built with -race and halts on the first report - any data race is a violation. " +
+			"One workload in five is run as the serial schedule (the calls one after the other on the shared environment). Oracles: (1) every call's (output, error) equals that of the same call run alone on a fresh environment; (2) the worker is built with -race and halts on the first report - any data race is a violation. " +
 			"Non-trivial: the workload has >= 2 concurrent calls on templates that differ in content type or block structure; counted per distinct workload.",
 		Assumptions: []string{"this technique does not enumerate interleavings: a race on a path no generated workload executes stays invisible", "the race detector reports unordered conflicting accesses of the observed execution; it does not need the bad interleaving to manifest"},
 		MaxShards: 8,
@@ -40,14 +41,18 @@ func init() {
 		if c.SB.Requests%4 == 0 {
 			c.SB.Close()
 		}
-		r := c.SB.Do(&sb.Req{Op: "conc", Env: cs.Env, Loader: "memory", Templates: cs.Templates, Calls: cs.Calls, Procs: cs.Procs, Yield: cs.Yield, DeadlineMs: 20000})
+		req := &sb.Req{Op: "conc", Env: cs.Env, Loader: "memory", Templates: cs.Templates, Calls: cs.Calls, Procs: cs.Procs, Yield: cs.Yield, DeadlineMs: 20000}
+		if cs.Serial {
+			req.Extra = map[string]string{"mode": "serial"}
+		}
+		r := c.SB.Do(req)
 		distinct := map[string]bool{}
 		for _, call := range cs.Calls {
 			distinct[call.Entry] = true
 		}
 		key, _ := jsonStr(cs)
 		nt := len(cs.Calls) >= 2 && len(distinct) >= 2
-		c.Ev.Count(key, nt, "env:"+cs.Env, fmt.Sprintf("goroutines:%d", len(cs.Calls)), fmt.Sprintf("procs:%d", cs.Procs))
+		c.Ev.Count(key, nt, fmt.Sprintf("serial:%v", cs.Serial), "env:"+cs.Env, fmt.Sprintf("goroutines:%d", len(cs.Calls)), fmt.Sprintf("procs:%d", cs.Procs))
 		if nt {
 			c.Ev.Sample(map[string]interface{}{"env": cs.Env, "templates": cs.Templates, "calls": len(cs.Calls), "entries": keysOf(distinct)})
 		}
@@ -115,6 +120,7 @@ func init() {
 					Entry: rapid.SampledFrom(entries).Draw(t, "entry"),
 					Ctx:   map[string]sb.V{"p": {K: "str", S: "<'\"&" + fmt.Sprint(i)}, "x": {K: "num", N: float64(i)}, "sel": {K: "bool", B: true}}})
 			}
+			cs.Serial = rapid.IntRange(0, 4).Draw(t, "serial") == 0
 			return cs
 		})
 	}
